@@ -38,6 +38,7 @@ CFGS = {
     'sse2':    ('gcc',   ['-O2', '-DNDEBUG', '-DBASH_SSE2', '-msse2'] + HOOK, []),
     'avx2':    ('gcc',   ['-O2', '-DNDEBUG', '-DBASH_AVX2', '-mavx2'] + HOOK, []),
     'avx512':  ('gcc',   ['-O2', '-DNDEBUG', '-DBASH_AVX512', '-mavx512f', '-fno-asynchronous-unwind-tables'] + HOOK, []),
+    'pg8':     ('gcc',   ['-O2', '-g1', '-DNDEBUG', '-DBEE2_VERIF_BLOB_PAGE_SIZE=8'] + HOOK, []),   # C15: blob pages of 8 octets (tail-of-page wipes)
     'tsan':    ('clang', ['-O1', '-g1', '-fsanitize=thread', '-DNDEBUG'] + HOOK, ['-fsanitize=thread']),
 }
 
